@@ -143,8 +143,8 @@ int main(void)
 			else {
 				wr_len = 0;
 				ret = write_tar_header(&mem_stream, ent, tb ? (const char *)tb : NULL, xl, (unsigned)strtoul(t[8], NULL, 10));
-				if (ret) printf("err %d\n", ret);
-				else { fputs("ok ", stdout); hex_print(stdout, wr_buf, wr_len); putchar('\n'); }
+				fputs(ret ? "err " : "ok ", stdout);          /* on failure: what was appended nevertheless */
+				hex_print(stdout, wr_buf, wr_len); putchar('\n');
 			}
 			sqfs_xattr_list_free(xl);
 			free(ent); free(nb); free(tb);
@@ -191,17 +191,19 @@ int main(void)
 					sqfs_istream_t *in = NULL;
 					if (it->open_file_ro(it, &in) != 0) fputs(" data=open-failed", stdout);
 					else {
-						unsigned char tmp[4096]; size_t total = 0; int r2; unsigned long long h = 1469598103934665603ULL;
-						fputs(" data=", stdout);
+						static unsigned char keep[8192]; unsigned char tmp[512]; size_t total = 0; int r2;
 						for (;;) {
 							r2 = sqfs_istream_read(in, tmp, sizeof(tmp));
 							if (r2 <= 0) break;
-							if (total + (size_t)r2 <= 8192) { size_t j; static const char d[] = "0123456789abcdef"; for (j = 0; j < (size_t)r2; ++j) { putchar(d[tmp[j] >> 4]); putchar(d[tmp[j] & 15]); } }
-							{ size_t j; for (j = 0; j < (size_t)r2; ++j) { h ^= tmp[j]; h *= 1099511628211ULL; } }
+							if (total + (size_t)r2 <= sizeof(keep)) memcpy(keep + total, tmp, (size_t)r2);
 							total += (size_t)r2;
 						}
-						if (total == 0) putchar('-');
-						printf(" len=%zu fnv=%llx rc=%d", total, h, r2);
+						if (r2 < 0) fputs(" data=corrupted", stdout);
+						else {
+							fputs(" data=", stdout);
+							if (total > sizeof(keep)) fputs("big", stdout); else hex_print(stdout, keep, total);
+							printf(" len=%zu", total);
+						}
 						sqfs_drop(in);
 					}
 				}
